@@ -604,6 +604,31 @@ func (m *Monitors) onERS(inv *simapi.Invocation, out kit.Outcome) {
 	if role == "active" && v.EDS.Annotations[v1.ExtendedDaemonSetRolloutFrozenAnnotationKey] == "true" && len(updateDeletes) > 0 {
 		m.viol("C08", "C08.frozen-no-update-delete", nil, inv, nil)
 	}
+	// the same through the clean-up path: while paused or frozen, deleting the one live pod of a node the replica
+	// set targets is an update deletion whatever helper issues it (duplicates, Failed pods and pods on nodes that
+	// are gone or no longer eligible remain clean-up business)
+	if role == "active" && (v.EDS.Annotations[v1.ExtendedDaemonSetRollingUpdatePausedAnnotationKey] == "true" || v.EDS.Annotations[v1.ExtendedDaemonSetRolloutFrozenAnnotationKey] == "true") {
+		for _, c := range cleanupDeletes {
+			if c.Pre == nil {
+				continue
+			}
+			p := c.Pre.(*corev1.Pod)
+			node := kit.NodeOfPod(p)
+			if node == "" || !eligible(node) || v.Canary[node] || p.Status.Phase == corev1.PodFailed || p.Status.Phase == corev1.PodSucceeded || p.Status.Phase == corev1.PodUnknown {
+				continue
+			}
+			// only a scheduled, running pod that is the node's one and only pod as read (no sibling of any kind:
+			// with a terminating or unscheduled sibling around, which of them goes is duplicate resolution)
+			if p.Spec.NodeName == "" || p.Status.Phase != corev1.PodRunning || len(podsByNode[node]) != 1 {
+				continue
+			}
+			rule := "C08.paused-no-update-delete"
+			if v.EDS.Annotations[v1.ExtendedDaemonSetRolloutFrozenAnnotationKey] == "true" {
+				rule = "C08.frozen-no-update-delete"
+			}
+			m.viol("C08", rule, map[string]string{"path": "clean-up"}, inv, map[string]any{"pod": podKey(p), "node": node})
+		}
+	}
 	if role == "active" && v.HasPods {
 		if v.EDS.Annotations[v1.ExtendedDaemonSetRollingUpdatePausedAnnotationKey] == "true" {
 			ctx.Count("C08.paused-syncs")
